@@ -1,13 +1,15 @@
 #!/bin/bash
-# usage: seed_matrix.sh [seed ...]   -- runs the quick check of the seeded property against a scratch copy of /repo with the seed applied.
-# Never touches /repo.  Output: one line per seed: seed, exit code, #VIOLATION, #UNDECIDED, #BROKEN, first failing check.
+# usage: seed_matrix.sh [seed ...]   -- runs the registered quick check of the seeded property against a scratch copy of /repo's headers with
+# the seed applied (VERIF_REPO=<copy>; /repo itself is never touched).  One line per seed: exit code, verdict counts, the checks that report a violation.
+# Seeds of properties that are not claimed (C11) are run against the property whose checks cover the changed function (override below).
 cd "$(dirname "$0")/.."
-SEEDS="$@"; [ -z "$SEEDS" ] && SEEDS=$(ls seeded | sort)
+SEEDS="$@"; [ -z "$SEEDS" ] && SEEDS=$(ls seeded | grep '^C[0-9][0-9]-[0-9]$' | sort)
 for s in $SEEDS; do
   p=${s%%-*}
+  case $s in C11-1|C11-2) p=C06;; esac
   T=$(mktemp -d /tmp/seedrun.XXXX); mkdir -p $T/repo; cp -r /repo/include $T/repo/
   if ! (cd $T/repo && patch -p1 -s < /verif/seeded/$s/patch.diff >/dev/null 2>&1); then echo "$s patch-does-not-apply"; rm -rf $T; continue; fi
-  out=$(VERIF_REPO=$T/repo python3 tools/runner.py $p --tier ${TIER:-quick} -j ${J:-6} --noevidence 2>&1); rc=$?
-  echo "$s rc=$rc viol=$(echo "$out" | grep -c '^VIOLATION') undecided=$(echo "$out" | grep -c '^UNDECIDED') broken=$(echo "$out" | grep -c '^BROKEN') first=$(echo "$out" | grep -E ' (violation|undecided|broken) ' | head -3 | awk '{print $1":"$2}' | tr '\n' ' ')"
+  out=$(VERIF_REPO=$T/repo python3 tools/runner.py $p --tier ${TIER:-quick} -j ${J:-9} --noevidence 2>&1); rc=$?
+  echo "$s prop=$p rc=$rc viol=$(echo "$out" | grep -c '^VIOLATION') undecided=$(echo "$out" | grep -c '^UNDECIDED') broken=$(echo "$out" | grep -c '^BROKEN') caught_by=$(echo "$out" | grep -E '^[A-Za-z0-9_@]+ +violation ' | awk '{print $1}' | tr '\n' ',')"
   rm -rf $T
 done
